@@ -5,6 +5,7 @@ schemas' own allocation rule as long as no creation reports it.
 -/
 import Proofs.Lib1Proj
 import Proofs.CratesV1MemSim
+import Proofs.CratesV1Suffix
 
 namespace EngineModel.Lib.V1
 open EngineModel.Api
@@ -154,5 +155,90 @@ theorem absent_suffix (o : FOps) {s : VSchema} (t : Id) : ∀ (cs : List Call) {
     rw [reissuesTrack_cons, Bool.or_eq_false_iff] at hno
     rw [run_cons]
     exact ih (libInv_step o h c) (absent_step o h t ht c hno.1) hno.2
+
+/-! ### a removed crate stays removed until its id is re-issued (the crates package's `dead_step`, on the composite) -/
+
+theorem newId_mapRes (r : Res CratesV1.Out) (y : Id) :
+    (Out.newId (mapRes convOut r) == some y) = false → r ≠ .ok (.id y) := by
+  intro h e
+  subst e
+  simp [mapRes, convOut, Out.newId] at h
+
+theorem reissuesCrate_cons (o : FOps) (s : VSchema) (L : Lib1) (c : Call) (cs : List Call) (y : Id) :
+    reissuesCrate o s L (c :: cs) y = (reissuesCrate o s L [c] y || reissuesCrate o s (step o s L c).1 cs y) := by
+  simp only [reissuesCrate, Bool.or_false]
+
+theorem crateDead_step (o : FOps) {s : VSchema} {L : Lib1} (h : LibInv s L) (y : Id) (hy : y ∉ CratesV1.ids L.cr) (c : Call)
+    (hno : reissuesCrate o s L [c] y = false) : y ∉ CratesV1.ids (step o s L c).1.cr := by
+  have hi := h.crates
+  have viaOp : ∀ op, ¬ ((CratesV1.step (toDetect s) L.cr op).2 = .ok (.id y) ∧ CratesV1.forestOp op ≠ none) →
+      y ∉ CratesV1.ids (CratesV1.step (toDetect s) L.cr op).1 := fun op hop => CratesV1.dead_step (toDetect s) hi hy hop
+  have hno' : ∀ op, (Out.newId (viaCrates s L op).2 == some y) = false →
+      ¬ ((CratesV1.step (toDetect s) L.cr op).2 = .ok (.id y) ∧ CratesV1.forestOp op ≠ none) :=
+    fun op hh hc => newId_mapRes _ y hh hc.1
+  by_cases hc : c.isObserver = true
+  · rw [step_observer o s L c hc]; exact hy
+  · cases c with
+    | createRootCrate n =>
+      have : reissuesCrate o s L [.createRootCrate n] y = ((Out.newId (viaCrates s L (.createRoot n)).2 == some y) || false) := rfl
+      rw [this, Bool.or_false] at hno
+      exact viaOp _ (hno' _ hno)
+    | createRootCrateAfter n a =>
+      have : reissuesCrate o s L [.createRootCrateAfter n a] y = ((Out.newId (viaCrates s L (.createRoot n)).2 == some y) || false) := rfl
+      rw [this, Bool.or_false] at hno
+      exact viaOp _ (hno' _ hno)
+    | createSubCrate p n =>
+      have : reissuesCrate o s L [.createSubCrate p n] y = ((Out.newId (viaCrates s L (.createSub p n)).2 == some y) || false) := rfl
+      rw [this, Bool.or_false] at hno
+      exact viaOp _ (hno' _ hno)
+    | createSubCrateAfter p n a =>
+      have : reissuesCrate o s L [.createSubCrateAfter p n a] y = ((Out.newId (viaCrates s L (.createSub p n)).2 == some y) || false) := rfl
+      rw [this, Bool.or_false] at hno
+      exact viaOp _ (hno' _ hno)
+    | removeCrate c =>
+      refine viaOp (.removeCrate c) ?_
+      rintro ⟨e, _⟩
+      have e' : (CratesV1.removeCrate (toDetect s) L.cr c).2 = .ok (.id y) := e
+      rw [CratesV1.removeCrate_eq (toDetect s) hi c] at e'; cases e'
+    | setName c n =>
+      refine viaOp (.rename c n) ?_
+      rintro ⟨e, _⟩
+      have e' : (CratesV1.setName (toDetect s) L.cr c n).2 = .ok (.id y) := e
+      rcases CratesV1.C15.setName_cases (toDetect s) hi.toFInv c n with e1 | e1 | ⟨_, e1⟩ <;> rw [e1] at e' <;> cases e'
+    | setParent c p =>
+      refine viaOp (.setParent c p) ?_
+      rintro ⟨e, _⟩
+      have e' : (CratesV1.setParent (toDetect s) L.cr c p).2 = .ok (.id y) := e
+      rcases CratesV1.C15.setParent_cases (toDetect s) hi.toFInv c p with e1 | e1 | ⟨_, e1⟩ <;> rw [e1] at e' <;> cases e'
+    | addTrack c t => exact viaOp (.addTrack c t) (fun hc => hc.2 rfl)
+    | crateRemoveTrack c t => exact viaOp (.removeTrackFrom c t) (fun hc => hc.2 rfl)
+    | clearTracks c => exact viaOp (.clearTracks c) (fun hc => hc.2 rfl)
+    | removeTrack t => exact viaOp (.removeTrack t) (fun hc => hc.2 rfl)
+    | createTrack x =>
+      rw [step_cr]
+      cases hcr : crOp o L (.createTrack x) with
+      | none => exact hy
+      | some op =>
+        have : op = .createTrack := by
+          have hcr' : (if (dbCreate o L.tr x).isOk then some CratesV1.Op.createTrack else none) = some op := hcr
+          split at hcr'
+          · cases hcr'; rfl
+          · cases hcr'
+        subst this
+        exact viaOp .createTrack (fun hc => hc.2 rfl)
+    | update t x => rw [show (step o s L (.update t x)).1.cr = L.cr from viaTracks_cr L _]; exact hy
+    | set t f v => rw [show (step o s L (.set t f v)).1.cr = L.cr from viaTracks_cr L _]; exact hy
+    | _ => exact absurd rfl hc
+
+theorem crateDead_suffix (o : FOps) {s : VSchema} (y : Id) : ∀ (cs : List Call) {L : Lib1}, LibInv s L →
+    y ∉ CratesV1.ids L.cr → reissuesCrate o s L cs y = false → y ∉ CratesV1.ids (run o s L cs).cr := by
+  intro cs
+  induction cs with
+  | nil => intro L _ hy _; exact hy
+  | cons c cs ih =>
+    intro L h hy hno
+    rw [reissuesCrate_cons, Bool.or_eq_false_iff] at hno
+    rw [run_cons]
+    exact ih (libInv_step o h c) (crateDead_step o h y hy c hno.1) hno.2
 
 end EngineModel.Lib.V1
